@@ -58,7 +58,8 @@ func inferSig(sig *types.Signature, args []Val) *types.Signature {
 			last := sig.Params().At(n - 1).Type()
 			if sl, ok := last.(*types.Slice); ok {
 				// a slice argument stands for the spread form f(xs...)
-				if _, isSl := a.Typ.Underlying().(*types.Slice); isSl {
+				_, elemIsSliceParam := coreOfParam(sl.Elem()).(*types.Slice)
+				if _, isSl := a.Typ.Underlying().(*types.Slice); isSl && !elemIsSliceParam {
 					pt = last
 				} else {
 					pt = sl.Elem()
@@ -68,6 +69,14 @@ func inferSig(sig *types.Signature, args []Val) *types.Signature {
 			pt = sig.Params().At(i).Type()
 		}
 		unify(pt, a.Typ)
+	}
+	// type parameters that occur only in the constraint of another one (slices.Concat[S ~[]E, E any]): core type inference
+	for i := 0; i < tps.Len(); i++ {
+		if b, ok := bindings[tps.At(i)]; ok {
+			if core := coreOfParam(tps.At(i)); core != nil {
+				unify(core, b)
+			}
+		}
 	}
 	targs := make([]types.Type, tps.Len())
 	for i := 0; i < tps.Len(); i++ {
@@ -85,4 +94,25 @@ func inferSig(sig *types.Signature, args []Val) *types.Signature {
 		return s
 	}
 	return sig
+}
+
+// coreOfParam returns the single tilde/exact term of a type parameter's constraint (S ~[]E gives []E), or nil.
+func coreOfParam(t types.Type) types.Type {
+	tp, ok := types.Unalias(t).(*types.TypeParam)
+	if !ok {
+		return nil
+	}
+	iface, ok := tp.Constraint().Underlying().(*types.Interface)
+	if !ok {
+		return nil
+	}
+	for i := 0; i < iface.NumEmbeddeds(); i++ {
+		switch u := iface.EmbeddedType(i).(type) {
+		case *types.Union:
+			if u.Len() == 1 {
+				return u.Term(0).Type()
+			}
+		}
+	}
+	return nil
 }
